@@ -28,7 +28,7 @@ CLAIMED.update({
     "C17": ("exploration", "3 C17", TECH + "same log generator at n, 2n, 4n blocks under adversarial schedules (starved coordinator / worker); --summary high-water marks must be flat and under a computed bound",
             "Whether a printed message can be released is decided by the worker/coordinator interleaving, which the simulator "
             "owns; metamorphic over size. Sampling."),
-    "C07": ("fault_enumeration", "3 C07", TECH + "stored-data faults on the simulated disk (every truncation point and single-byte corruption of small valid files of each kind, random bytes, mismatching names, structured tails after a valid stream: second member / file twice / zero padding / stray lengths) alone and beside valid sources; oracle = exit status in {0,1}, no panic/deadlock/livelock, co-sources intact",
+    "C07": ("fault_enumeration", "3 C07", TECH + "stored-data faults on the simulated disk (every truncation point and single-byte corruption of small valid files of each kind, random bytes, mismatching names, structured tails after a valid stream, damaged content inside well-formed containers, header/trailer/index fields set to extreme values with the format's checksum recomputed; 3 GiB address-space limit) alone and beside valid sources; oracle = exit status in {0,1}, no panic/deadlock/livelock, co-sources intact",
             "Thorough tier enumerates the complete truncation/corruption space of small valid files of each kind and "
             "container; quick tier samples it. No-crash/no-hang is decided by the scheduler (deadlock, step budget) and exit status."),
 })
